@@ -344,7 +344,7 @@ PROPS['C12'] = {
                   'and on fixture files of JPEG/GIF/PNG/JPEG XL with bytes appended. The chunk scanner (byteorder reads, String::from_utf8, io::Error drops) timed out in CBMC twice and is outside Verus.',
     'level_note': 'trailing-bytes findings recorded in KNOWN_FINDINGS.txt (S5); JPEG/GIF/JXL parsers only on fixtures; data-hash regions (get_object_locations_from_stream) not covered.',
     'technique': TECH_B,
-    'parts': [B('native:box_maps', 'sdk', [T('c12_png_box_map_small_grammar'), T('c12_jxl_box_map_small_grammar'), T('c12_sidecar_box_map'), T('c12_fixture_box_maps')],
+    'parts': [B('native:box_maps', 'sdk', [T('c12_png_box_map_small_grammar'), T('c12_jxl_box_map_small_grammar'), T('c12_jpeg_box_map_small_grammar'), T('c12_sidecar_box_map'), T('c12_fixture_box_maps')],
                 functions=[('sdk/src/asset_handlers/png_io.rs', 'get_png_chunk_positions'), ('sdk/src/asset_handlers/png_io.rs', 'get_box_map', r'impl AssetBoxHash for PngIO \{'),
                            ('sdk/src/asset_handlers/c2pa_io.rs', 'get_box_map', r'impl AssetBoxHash for C2paIO \{')],
                 bounds='PNG grammar: 1..=3 chunks (thorough 4), 6 types, 0..=2 data bytes, 0..=3 trailing bytes, 4 truncation points (thorough: all)')],
